@@ -62,7 +62,7 @@ IdxOf(kinds) == SelectSeq([j \in DOMAIN LItems |-> j], LAMBDA j : LItems[j].k = 
 ImportIdx == SelectSeq([j \in DOMAIN LItems |-> j], LAMBDA j : LItems[j].k = "set")
 \* (output type, item index, leaf index, name index) sequences per phase
 ProviderOuts ==
-  LET ix == IdxOf({"func", "struct"}) IN
+  LET ix == IdxOf({"func", "struct", "structlit"}) IN
   FlattenSeq([a \in DOMAIN ix |-> LET l == P.leaves[LItems[ix[a]].i] IN
      IF l.k = "func" THEN <<[t |-> l.out, j |-> ix[a], i |-> LItems[ix[a]].i, n |-> 0, k |-> "func"]>>
      ELSE <<[t |-> l.s, j |-> ix[a], i |-> LItems[ix[a]].i, n |-> 0, k |-> "struct"], [t |-> Ptr(l.s), j |-> ix[a], i |-> LItems[ix[a]].i, n |-> 0, k |-> "struct"]>>])
